@@ -265,6 +265,33 @@ def gen5(files):
     return out
 
 
+def gen6(files):
+    """Sixth operator set: a simple statement duplicated; the bodies of two adjacent single-line match arms swapped;
+    a `?` turned into an early `Ok`-swallowing `.ok()` is covered by set 1 — here also `if let Some(x) = e` bodies skipped
+    (condition forced false) and `else` branches forced."""
+    muts = []
+    for f in files:
+        src = open(os.path.join(SRC, f)).read()
+        cut = src.find("#[cfg(test)]\nmod ")
+        body = src if cut < 0 else src[:cut]
+        lines = body.split("\n")
+        def simple(l):
+            st = l.strip()
+            return st.endswith(";") and not st.startswith(("let ", "use ", "//", "pub ", "const ", "static ", "type ", "return", "#", "break", "continue")) and st.count("(") == st.count(")") and st.count("{") == st.count("}")
+        arm = re.compile(r"^(\s*)([^=]+?) => ([^{}]+),$")
+        for ln, line in enumerate(lines):
+            if simple(line):
+                muts.append({"file": f, "line": ln + 1, "old": line, "new": line + " " + line.strip(), "rule": "statement duplicated"})
+            m1 = arm.match(line)
+            m2 = arm.match(lines[ln + 1]) if ln + 1 < len(lines) else None
+            if m1 and m2 and m1.group(3) != m2.group(3) and not line.strip().startswith("//"):
+                muts.append({"file": f, "line": ln + 1, "old": line, "new": "%s%s => %s,\n%s%s => %s," % (m1.group(1), m1.group(2), m2.group(3), m2.group(1), m2.group(2), m1.group(3)), "rule": "adjacent arm bodies swapped", "also_delete_next": True})
+            m = re.match(r"^(\s*)(\} else )?if let (.+) = (.+) \{$", line)
+            if m:
+                muts.append({"file": f, "line": ln + 1, "old": line, "new": "%s%sif false {" % (m.group(1), m.group(2) or ""), "rule": "if-let := false"})
+    return muts
+
+
 def sh(cmd, cwd=None, env=None, timeout=900):
     """Run in its own process group with an address-space limit; on timeout kill the whole group
     (a mutant can loop forever or allocate without bound inside the test binary)."""
@@ -351,7 +378,7 @@ def main():
             files = a.pop(0).split(",")
         elif x == "--out":
             outp = a.pop(0)
-        elif x in ("--ops2", "--ops3", "--ops4", "--ops5"):
+        elif x in ("--ops2", "--ops3", "--ops4", "--ops5", "--ops6"):
             pass
     os.makedirs(ROOT, exist_ok=True)
     shutil.rmtree(SRC, ignore_errors=True)
@@ -369,7 +396,7 @@ def main():
                 if f.endswith(".rs") and f not in ("tests.rs",) and "/tests" not in dp:
                     files.append(os.path.relpath(os.path.join(dp, f), "/repo"))
         files.sort()
-    muts = gen5(files) if "--ops5" in sys.argv else gen4(files) if "--ops4" in sys.argv else gen3(files) if "--ops3" in sys.argv else (gen2(files) if "--ops2" in sys.argv else gen(files))
+    muts = gen6(files) if "--ops6" in sys.argv else gen5(files) if "--ops5" in sys.argv else gen4(files) if "--ops4" in sys.argv else gen3(files) if "--ops3" in sys.argv else (gen2(files) if "--ops2" in sys.argv else gen(files))
     if limit:
         muts = muts[:limit]
     print("%d mutants over %d files" % (len(muts), len(files)))
